@@ -27,6 +27,7 @@ type xnode struct {
 	elems   []*xnode
 	pointee *xnode
 	unsup   string
+	altTags []int // interface: dynamic type tags of the payload alternatives in elems
 }
 
 type xplan struct {
@@ -136,6 +137,23 @@ func (p *xplan) build(t types.Type, term string, depth int) *xnode {
 		n.fields = []*xnode{{kind: "int", t: types.Typ[types.Int]}, {kind: "int", t: types.Typ[types.Int]}}
 		p.ask("(i-tag "+term+")", &n.fields[0].val)
 		p.ask("(i-val "+term+")", &n.fields[1].val)
+		if u.NumMethods() > 0 && depth < 2 {
+			// payload alternatives: one per concrete type with a tag in the VC
+			for i, ct := range vc.tagTypes {
+				if i >= 16 {
+					break
+				}
+				if _, isPtr := ct.Underlying().(*types.Pointer); isPtr || !types.Implements(ct, u) {
+					continue
+				}
+				_, unbox := vc.boxFns(ct)
+				if !p.declared[unbox] {
+					continue
+				}
+				n.elems = append(n.elems, p.build(ct, "("+unbox+" (i-val "+term+"))", depth+1))
+				n.altTags = append(n.altTags, i+1)
+			}
+		}
 	default:
 		n.kind = "other"
 		n.unsup = "type " + tt.String()
@@ -219,6 +237,7 @@ func smtIntValue(v string, signed bool, bits int) (*big.Int, bool) {
 // ---------- rendering ----------
 
 type goRender struct {
+	vc       *VC
 	pkg      *types.Package
 	imports  map[string]string // path -> name
 	stmts    []string
@@ -250,6 +269,20 @@ func (g *goRender) foreignOpaque(t types.Type) bool {
 		}
 	}
 	return false
+}
+
+// mirror returns an anonymous struct type with the layout of the struct type t
+// (same field names and types); used to reach unexported fields of other
+// packages in replay tests through unsafe.Pointer.
+func (g *goRender) mirror(t types.Type) string {
+	s, _ := structOf(t)
+	g.imports["unsafe"] = "unsafe"
+	var fs []string
+	for i := 0; i < s.NumFields(); i++ {
+		f := s.Field(i)
+		fs = append(fs, mirrorName(f)+" "+g.typeStr(f.Type()))
+	}
+	return "struct{" + strings.Join(fs, "; ") + "}"
 }
 
 func collectAbs(n *xnode, set map[string]bool) {
@@ -352,6 +385,11 @@ func (g *goRender) expr(n *xnode) string {
 		if val == nil {
 			val = big.NewInt(0)
 		}
+		for i, alt := range n.altTags {
+			if tag.IsInt64() && int(tag.Int64()) == alt {
+				return ts + "(" + g.expr(n.elems[i]) + ")"
+			}
+		}
 		if u, ok := n.t.Underlying().(*types.Interface); !ok || u.NumMethods() > 0 {
 			g.problems = append(g.problems, "cannot construct a value of interface "+ts)
 			return ts + "(nil)"
@@ -359,10 +397,29 @@ func (g *goRender) expr(n *xnode) string {
 		// an opaque comparable stand-in: equal iff dynamic type and payload are equal in the model
 		return ts + "([2]int64{" + tag.String() + ", " + val.String() + "})"
 	case "struct":
-		if g.foreignOpaque(n.t) {
-			return "*new(" + ts + ")" // zero value (e.g. sync.Mutex)
-		}
 		s, _ := structOf(n.t)
+		if g.foreignOpaque(n.t) {
+			allZero := true
+			for _, f := range n.fields {
+				if f.kind != "zero" {
+					allZero = false
+				}
+			}
+			if allZero || strings.HasPrefix(ts, "sync.") || strings.HasPrefix(ts, "atomic.") {
+				return "*new(" + ts + ")" // zero value (e.g. sync.Mutex)
+			}
+			// unexported fields of another package: fill a mirror struct of
+			// identical layout and reinterpret it
+			var fs []string
+			for i, f := range n.fields {
+				if f.kind == "zero" || s.Field(i).Name() == "_" {
+					continue
+				}
+				fs = append(fs, mirrorName(s.Field(i))+": "+g.expr(f))
+			}
+			m := g.mirror(n.t)
+			return "func() " + ts + " { m := " + m + "{" + strings.Join(fs, ", ") + "}; return *(*" + ts + ")(unsafe.Pointer(&m)) }()"
+		}
 		var fs []string
 		for i, f := range n.fields {
 			if f.kind == "zero" {
